@@ -29,3 +29,8 @@ CLAIMED['C13'] = (
  'For every (r, s) the C signer may return (length classes 1/16/31/32 bytes, every value inside), z3 shows Signature.create returns low S with the same r, DER output is the strict BIP66 encoding plus hash type, range checks accept exactly [1, n-1], compact and DER blobs parse back to (r, s, hash type); the verifier path refuses off-curve keys for both encodings and returns exactly the C verifier result; the nonce is the RFC6979 output for (digest, secret) or the explicit k.',
  'Trusted: z3, proxy/shim layer, stubs for fastecdsa C functions (arbitrary results). Outside: validity under an independent verifier, exactness of the C verifier, nonce uniqueness. Listed finding: DER blobs of <= 64 bytes are rejected by parse_bytes.',
  'DESIGN.md C13')
+CLAIMED['C01'] = (
+ 'symbolic execution of the real Transaction.signature/signature_segwit/raw and Input.update_scripts (symx, bit-vectors) with the double-SHA256 as an uninterpreted collision-free function; per-path SMT obligations: byte equality with reference BIP143 / legacy preimages',
+ 'For every transaction shape inside the bounds (1-2 (thorough 3) inputs/outputs, every sign index, seven signed-input kinds incl. m-of-n multisig with symbolic m, mixed legacy/segwit inputs) and every value of version, locktime, sequences, outpoints, amounts, keys, script bytes, z3 shows the preimage handed to the hash equals the consensus preimage (nested hashPrevouts/hashSequence/hashOutputs included) and the digest is the hash of it.',
+ 'Trusted: z3, proxy/shim layer, reference preimages /verif/ref/sighash.py, collision-freeness of the uninterpreted hash, Key.hash160 relation (C04). Outside: Taproot, other hash types, n > 5. Listed finding: an output script that is the single byte 00.',
+ 'DESIGN.md C01')
